@@ -899,7 +899,10 @@ def _piggy():
             ("c11", {"ep2-mul": 1500, "ep2-fix": 900, "ep2-sim": 1200}, ["base256"]),
             ("c16", {"eb-mul": 1600, "eb-fix": 800, "eb-sim": 1000}, ["base256"]),
             ("c12", {"mul-g1": 600, "mul-g2": 400, "exp-gt": 300}, ["base256"]),
-            ("c17", {"ed-mul": 1500, "ed-fix": 800, "ed-sim": 800}, ["p255"])]
+            ("c17", {"ed-mul": 1500, "ed-fix": 800, "ed-sim": 800}, ["p255"]),
+            # protocol-level writers into caller buffers (exact-size heap buffers, capacity mutations)
+            ("c05", {"rsa": 1500, "ecdsa": 600}, ["base256"]),
+            ("c06", {"rsa_rt": 800, "ecies": 600, "rsa_alllen": 40}, ["base256"])]
     for modname, names, cfgs in plan:
         m = importlib.import_module("props." + modname)
         seen = set()
